@@ -289,12 +289,20 @@ func (gr *genRun) defaultDrains(rf *RecFacts) bool {
 	// not inside a loop — what follows the switch
 	var unknown []ast.Stmt
 	found := false
+	labelTail := map[string][]ast.Stmt{}
 	var visit func(list []ast.Stmt, inLoop bool)
 	visit = func(list []ast.Stmt, inLoop bool) {
 		for i, st := range list {
 			switch x := st.(type) {
 			case *ast.ForStmt:
 				visit(x.Body.List, true)
+			case *ast.LabeledStmt:
+				// L: for { switch … default: break L } followed by the statements
+				// that `break L` leads to
+				if loop, ok := x.Stmt.(*ast.ForStmt); ok {
+					labelTail[x.Label.Name] = list[i+1:]
+					visit(loop.Body.List, true)
+				}
 			case *ast.SwitchStmt:
 				if x.Tag == nil || found {
 					continue
@@ -315,6 +323,13 @@ func (gr *genRun) defaultDrains(rf *RecFacts) bool {
 					if cl := cc.(*ast.CaseClause); cl.List == nil {
 						hasDefault = true
 						unknown = cl.Body
+						if len(cl.Body) == 1 {
+							if br, ok := cl.Body[0].(*ast.BranchStmt); ok && br.Tok == token.BREAK && br.Label != nil {
+								if tail, ok := labelTail[br.Label.Name]; ok {
+									unknown = tail
+								}
+							}
+						}
 					}
 				}
 				if !hasDefault && !inLoop {
